@@ -4,6 +4,9 @@ use std::{cell::RefCell, collections::HashMap, rc::Rc};
 
 use maplit::hashmap;
 
+/// Names the assembler itself gives a meaning while it builds (the location counter): nothing else may take them
+pub const RESERVED_NAMES: [&str; 1] = ["pc"];
+
 pub trait Context {
     fn get_define(&self, _name: &String) -> Option<Expr>;
     fn get_equ(&self, _name: &String) -> Option<Expr>;
@@ -34,7 +37,9 @@ pub trait Context {
     }
 
     fn exist(&self, name: &String) -> bool {
-        if let Some(_) = self.get_expr(name) {
+        if RESERVED_NAMES.contains(&name.to_lowercase().as_str()) {
+            true
+        } else if let Some(_) = self.get_expr(name) {
             true
         } else if let Some(_) = self.get_def(name) {
             true
